@@ -98,13 +98,24 @@ def c17(cfg):
     M = symc.general("m_", n, 2, complex_=not real)
     Mr = symc.general("w_", 2, n, complex_=not real)
 
+    executed = []  # names of the operations already performed on this projector object, in order (cached derived operators make results history dependent)
+
     def replay_for(name, fn_lib, fn_ref):
+        history = tuple(executed)
+
         def replay(model):
-            return _numeric_replay(cfg, model, name)
+            return _numeric_replay(cfg, model, name, history)
 
         return replay
 
+    pending = []
+
     def ob(name, lib_fn, ref):
+        pending.append((name, lib_fn, ref))
+
+    def run_ob(name, lib_fn, ref):
+        replay = replay_for(name, None, None)
+        executed.append(name)
         try:
             lib = lib_fn()
         except Exception as e:
@@ -119,7 +130,7 @@ def c17(cfg):
         if lib.shape != ref.shape:
             rec.direct_violation(f"{name}: shape {lib.shape} != {ref.shape}", sig + f":{name.split()[0]}-shape", {"lib": list(lib.shape), "ref": list(ref.shape)})
             return
-        x = rec.oblige(name, lib, ref, sig=sig + ":" + name.split()[0], replay=replay_for(name, None, None))
+        x = rec.oblige(name, lib, ref, sig=sig + ":" + name.split()[0], replay=replay)
         if x != "structural":
             rec.nontrivial = True
 
@@ -161,21 +172,28 @@ def c17(cfg):
 
     A = symc.general("a_", n, n, complex_=not real)
     Aop = aslinearoperator(np.array(A, dtype=object))
-    PAP = P @ Aop @ P
     DAD = symc.mm(symc.mm(D, A), D)
-    ob("composite PAP@v", lambda: PAP @ v, mv(DAD, v))
-    ob("composite PAP@M", lambda: PAP @ M, mv(DAD, M))
-    ob("composite W@PAP", lambda: Mr @ PAP, symc.mm(Mr, DAD))
-    ob("composite v@PAP", lambda: v @ PAP, mv(DAD.T, v))
-    ob("composite PAP.H@v", lambda: PAP.H @ v, mv(symc.dagger(DAD), v))
-    ob("composite PAP.T@v", lambda: PAP.T @ v, mv(DAD.T, v))
-    ob("composite PAP.rmatvec", lambda: PAP.rmatvec(v), mv(symc.dagger(DAD), v))
+    ob("composite PAP@v", lambda: (P @ Aop @ P) @ v, mv(DAD, v))
+    ob("composite PAP@M", lambda: (P @ Aop @ P) @ M, mv(DAD, M))
+    ob("composite W@PAP", lambda: Mr @ (P @ Aop @ P), symc.mm(Mr, DAD))
+    ob("composite v@PAP", lambda: v @ (P @ Aop @ P), mv(DAD.T, v))
+    ob("composite PAP.H@v", lambda: (P @ Aop @ P).H @ v, mv(symc.dagger(DAD), v))
+    ob("composite PAP.T@v", lambda: (P @ Aop @ P).T @ v, mv(DAD.T, v))
+    ob("composite PAP.rmatvec", lambda: (P @ Aop @ P).rmatvec(v), mv(symc.dagger(DAD), v))
     ob("composite (P+P)@v", lambda: (P + P) @ v, mv(D + D, v))
     ob("composite (2P).H@v", lambda: (2 * P).H @ v, mv(symc.dagger(D) * 2, v))
     # idempotence when L^dagger R = 1 (hypothesis removed by parametrisation)
     if mode == "biorthogonal":
         ob("idempotent P@(P@v)", lambda: P @ (P @ v), mv(D, v))
         ob("idempotent v@P@P", lambda: (v @ P) @ P, mv(D.T, v))
+    # order of the operations on the one projector object: as listed (primitive applications first), derived operators first, or reversed
+    order = cfg.get("order", "listed")
+    if order == "derived_first":
+        pending.sort(key=lambda t: 0 if t[0].split()[0].startswith(("chain", "composite")) or ".H" in t[0] or ".T" in t[0] else 1)
+    elif order == "reversed":
+        pending.reverse()
+    for t in pending:
+        run_ob(*t)
     # shape / dtype reported consistently
     ok = tuple(P.shape) == (n, n) and tuple(P.H.shape) == (n, n) and tuple(P.T.shape) == (n, n) and P.dtype == np.dtype(object)
     if ok:
@@ -193,8 +211,9 @@ def _conj_dense(D):
     return symc.dagger(D).T
 
 
-def _numeric_replay(cfg, model, name):
-    """Concrete complex numpy replay of one named obligation at the model point (real public operator API)."""
+def _numeric_replay(cfg, model, name, history=()):
+    """Concrete complex numpy replay of one named obligation at the model point (real public operator API), after the same operations
+    on the same projector object, in the same order, as in the symbolic run (`history`)."""
     from pymablock.linalg import ComplementProjector
     from scipy.sparse.linalg import aslinearoperator
 
@@ -222,10 +241,8 @@ def _numeric_replay(cfg, model, name):
     M = val("m_", n, 2)
     W = val("w_", 2, n)
     A = val("a_", n, n)
-    PAP = P @ aslinearoperator(A) @ P
+    Aop = aslinearoperator(A)
     DAD = D @ A @ D
-    key = name.split()[0]
-    rest = name[len(key):].strip()
     pairs = {
         ("_apply", "P v"): (lambda: P._apply(v), D @ v), ("_apply", "P M"): (lambda: P._apply(M), D @ M),
         ("_apply_left", "adjoint action on v"): (lambda: P._apply_left(v), D.conj().T @ v), ("_apply_left", "adjoint action on M"): (lambda: P._apply_left(M), D.conj().T @ M),
@@ -235,23 +252,33 @@ def _numeric_replay(cfg, model, name):
         ("shape", "P.matvec(column)"): (lambda: P.matvec(v.reshape(-1, 1)), (D @ v).reshape(-1, 1)), ("shape", "P.rmatvec(column)"): (lambda: P.rmatvec(v.reshape(-1, 1)), (D.conj().T @ v).reshape(-1, 1)),
         ("shape", "P.dot(M)"): (lambda: P.dot(M), D @ M), ("shape", "P(v)"): (lambda: P(v), D @ v),
         ("shape", "P.H.matmat(M)"): (lambda: P.H.matmat(M), D.conj().T @ M), ("shape", "P.T.rmatmat(M)"): (lambda: P.T.rmatmat(M), D.conj() @ M),
-        ("composite", "PAP@v"): (lambda: PAP @ v, DAD @ v), ("composite", "PAP@M"): (lambda: PAP @ M, DAD @ M), ("composite", "W@PAP"): (lambda: W @ PAP, W @ DAD),
-        ("composite", "v@PAP"): (lambda: v @ PAP, v @ DAD), ("composite", "PAP.H@v"): (lambda: PAP.H @ v, DAD.conj().T @ v), ("composite", "PAP.T@v"): (lambda: PAP.T @ v, DAD.T @ v),
-        ("composite", "PAP.rmatvec"): (lambda: PAP.rmatvec(v), DAD.conj().T @ v), ("composite", "(P+P)@v"): (lambda: (P + P) @ v, 2 * D @ v), ("composite", "(2P).H@v"): (lambda: (2 * P).H @ v, 2 * D.conj().T @ v),
+        ("composite", "PAP@v"): (lambda: (P @ Aop @ P) @ v, DAD @ v), ("composite", "PAP@M"): (lambda: (P @ Aop @ P) @ M, DAD @ M), ("composite", "W@PAP"): (lambda: W @ (P @ Aop @ P), W @ DAD),
+        ("composite", "v@PAP"): (lambda: v @ (P @ Aop @ P), v @ DAD), ("composite", "PAP.H@v"): (lambda: (P @ Aop @ P).H @ v, DAD.conj().T @ v), ("composite", "PAP.T@v"): (lambda: (P @ Aop @ P).T @ v, DAD.T @ v),
+        ("composite", "PAP.rmatvec"): (lambda: (P @ Aop @ P).rmatvec(v), DAD.conj().T @ v), ("composite", "(P+P)@v"): (lambda: (P + P) @ v, 2 * D @ v), ("composite", "(2P).H@v"): (lambda: (2 * P).H @ v, 2 * D.conj().T @ v),
         ("idempotent", "P@(P@v)"): (lambda: P @ (P @ v), D @ v), ("idempotent", "v@P@P"): (lambda: (v @ P) @ P, v @ D),
     }
-    if key.startswith("chain"):
-        ch = key[5:]
-        Dc = D
-        for c in ch:
-            Dc = {"T": Dc.T, "H": Dc.conj().T, "C": Dc.conj()}[c]
-        Pc = _apply_chain_op(P, ch)
-        fn, ref = {"@v": (lambda: Pc @ v, Dc @ v), "left": (lambda: W @ Pc, W @ Dc), "rmatvec": (lambda: Pc.rmatvec(v), Dc.conj().T @ v)}[rest]
-    else:
-        fn, ref = pairs[(key, rest)]
+
+    def lookup(nm):
+        key = nm.split()[0]
+        rest = nm[len(key):].strip()
+        if key.startswith("chain"):
+            ch = key[5:]
+            Dc = D
+            for c in ch:
+                Dc = {"T": Dc.T, "H": Dc.conj().T, "C": Dc.conj()}[c]
+            return {"@v": (lambda: _apply_chain_op(P, ch) @ v, Dc @ v), "left": (lambda: W @ _apply_chain_op(P, ch), W @ Dc),
+                    "rmatvec": (lambda: _apply_chain_op(P, ch).rmatvec(v), Dc.conj().T @ v)}[rest]
+        return pairs[(key, rest)]
+
+    for h in history:
+        try:
+            lookup(h)[0]()
+        except Exception:
+            pass
+    fn, ref = lookup(name)
     got = np.asarray(fn())
     err = float(np.max(np.abs(got - ref)))
-    return err > TOL * max(1.0, float(np.max(np.abs(ref)))), {"obligation": name, "max_abs_error": err}
+    return err > TOL * max(1.0, float(np.max(np.abs(ref)))), {"obligation": name, "max_abs_error": err, "operations_before_on_the_same_object": list(history)}
 
 
 def configs(tier):
@@ -261,4 +288,8 @@ def configs(tier):
             for n, k in ((2, 1), (3, 1), (3, 2)) + (((4, 2), (4, 1)) if tier == "thorough" else ()):
                 cfgs.append(dict(n=n, k=k, mode=mode, real=real, chain=2 if (tier == "quick" or n > 3) else 3))
     cfgs.append(dict(n=3, k=1, mode="hermitian", real=False, chain=1, left_none=False))
+    # the same operations in other orders on the one projector object (derived operators requested before / after the first application)
+    for mode in ("general", "biorthogonal", "real_R"):
+        for order in ("derived_first", "reversed"):
+            cfgs.append(dict(n=3, k=1, mode=mode, real=False, chain=2, order=order))
     return [("vf.props.projector", "c17", c) for c in cfgs]
